@@ -37,6 +37,8 @@ type runner struct {
 	replays  string
 	nReplays int
 	seeded   string // self-test: a defect injected into the planner metadata ("misroute")
+	// shrinkShape: while shrinking, the failureShape every accepted candidate must keep
+	shrinkShape string
 }
 
 // seededMetadata injects a configuration defect the check must notice: every subgraph claims,
@@ -650,7 +652,8 @@ func cmdReplay(a map[string]string) {
 			bad++
 			rp := mkReplay(c, v, true, r.lab)
 			rp.ShrunkFrom = "replay of " + f
-			path = r.writeReplay(rp, "-replay")
+			// (hand-made corpus cases all carry seed 0 / index 0: the file name keeps them apart)
+			path = r.writeReplay(rp, "-replay-"+strings.TrimSuffix(filepath.Base(f), ".json"))
 			if path == "" {
 				path = f
 			}
